@@ -224,7 +224,8 @@ def check(chk):
         chk.sample({"validated_history": traces[0]})
 
     # ---- binding 2: compiled programs with real threads
-    progs.run_sync_programs(chk, thorough, sd)
+    if os.environ.get("VERIF_NO_PROGS") != "1":
+        progs.run_sync_programs(chk, thorough, sd)
     chk.assumptions += ["semaphore/notify-list state is accessed only under its mutex or through atomics (gates are the only scheduling points)",
                         "Go's own sync package (Mutex, RWMutex, WaitGroup, Once, Cond) is correct given the semaphore and notify-list contracts",
                         "real-pthread runs of compiled programs explore only the schedules the OS happens to produce"]
